@@ -40,7 +40,7 @@ use std::net::IpAddr;
 #[cfg(feature = "x509-parser")]
 use std::net::{Ipv4Addr, Ipv6Addr};
 
-use time::{OffsetDateTime, Time};
+use time::{OffsetDateTime, Time, UtcOffset};
 use yasna::models::ObjectIdentifier;
 use yasna::models::{GeneralizedTime, UTCTime};
 use yasna::tags::{TAG_BMPSTRING, TAG_TELETEXSTRING, TAG_UNIVERSALSTRING};
@@ -559,6 +559,8 @@ fn write_dt_utc_or_generalized(writer: DERWriter, dt: OffsetDateTime) {
 	// about dates before 1950, but as UTCTime can't represent
 	// them, we have to use GeneralizedTime if we want to or not.
 	// [1]: https://tools.ietf.org/html/rfc5280#section-4.1.2.5
+	// The choice must be made on the UTC year, which is the one that gets encoded
+	let dt = dt.to_offset(UtcOffset::UTC);
 	if (1950..2050).contains(&dt.year()) {
 		let date_time = dt_strip_nanos(dt);
 		let ut = UTCTime::from_datetime(date_time);
